@@ -14,7 +14,7 @@ func (c *propCfg) mustReach() []string { return c.Must }
 
 var props = map[string]*propCfg{
 	"C12": {
-		Parts: []part{{Engine: "poolsim", Quick: 16000, Thorough: 400000}, {Engine: "racestress", Race: true, Quick: 1600, Thorough: 40000}},
+		Parts: []part{{Engine: "poolsim", Quick: 16000, Thorough: 800000}, {Engine: "racestress", Race: true, Quick: 1600, Thorough: 40000}},
 		Rule:  "one evaluation = one simulated pool lifetime (size -1..16, 1-3 Submit*/Wait rounds, 1-4 submitters, 0..500 tasks, free/sleeping/barrier/run-me-last task bodies) under one seeded schedule; non-trivial = at least two tasks were in flight at once (or, for a 1-worker pool, at least two tasks ran); distinct = distinct hash of (scenario shape, sequence of (task id, site) scheduler choices)",
 		Must:  []string{"queue_full_submit_blocked", "all_workers_busy"},
 	},
@@ -22,12 +22,12 @@ var props = map[string]*propCfg{
 
 func init() {
 	props["C13"] = &propCfg{
-		Parts: []part{{Engine: "storesim", Quick: 60000, Thorough: 1500000}, {Engine: "racestress", Race: true, Quick: 1600, Thorough: 40000}},
+		Parts: []part{{Engine: "storesim", Quick: 60000, Thorough: 8000000}, {Engine: "racestress", Race: true, Quick: 1600, Thorough: 60000}},
 		Rule:  "one evaluation = one simulated history of 2..6 clients x <=5 store operations (<=24 per history) over <=4 keys with unique values, every Lock/RLock a scheduling point, checked with porcupine against a sequential map; non-trivial = at least one pair of operations of different clients overlapped (invoke/return stamped with event sequence numbers); distinct = distinct hash of (scenario shape, scheduler choice sequence)",
 		Must:  []string{"merge_overlapped", "clear_overlapped", "porcupine_ok"},
 	}
 	props["C14"] = &propCfg{
-		Parts: []part{{Engine: "storesim", Quick: 24000, Thorough: 600000}},
+		Parts: []part{{Engine: "storesim", Quick: 24000, Thorough: 4000000}},
 		Rule:  "one evaluation = either one client issuing up to 200 operations (refinement against a Go map, operation by operation, including snapshot-mutation and merge-of-alias steps) or 2..4 clients whose GetAll/Keys snapshots are deep-copied at hand-out, poisoned by their holder or left alone, and re-validated at the end; non-trivial = >=3 operations (1 client) or overlapping operations (several clients); distinct = distinct hash of (scenario shape, scheduler choice sequence)",
 	}
 }
@@ -35,67 +35,67 @@ func init() {
 const flowRule = "one evaluation = one generated scenario (nodes of every kind with scripted per-invocation outcomes, flows, batch nodes, configuration, context) executed on the instrumented flyt under one seeded schedule on the fake clock and compared with the reference model; distinct = distinct hash of (scenario, sequence of (task id, site) scheduler choices); "
 
 func init() {
-	props["C01"] = &propCfg{Parts: []part{{Engine: "flowsim", Quick: 60000, Thorough: 1500000}},
+	props["C01"] = &propCfg{Parts: []part{{Engine: "flowsim", Quick: 60000, Thorough: 6000000}},
 		Rule: flowRule + "non-trivial = at least three callback invocations"}
-	props["C02"] = &propCfg{Parts: []part{{Engine: "flowsim", Quick: 60000, Thorough: 1500000}},
+	props["C02"] = &propCfg{Parts: []part{{Engine: "flowsim", Quick: 60000, Thorough: 4000000}},
 		Rule: flowRule + "non-trivial = at least three callback invocations and at least one injected fault fired",
 		Must: []string{"fallback_after_retries", "retry_attempt"}}
-	props["C03"] = &propCfg{Parts: []part{{Engine: "flowsim", Quick: 60000, Thorough: 1500000}},
+	props["C03"] = &propCfg{Parts: []part{{Engine: "flowsim", Quick: 60000, Thorough: 2000000}},
 		Rule: flowRule + "non-trivial = at least two node visits on the executed path",
 		Must: []string{"self_loop_or_revisit", "node_revisited"}}
-	props["C04"] = &propCfg{Parts: []part{{Engine: "flowsim", Quick: 60000, Thorough: 1500000}},
+	props["C04"] = &propCfg{Parts: []part{{Engine: "flowsim", Quick: 60000, Thorough: 2500000}},
 		Rule: flowRule + "non-trivial = at least three callback invocations and (in the faulty configuration) at least one injected fault fired",
 		Must: []string{"run_failed_at_prep", "run_failed_at_exec", "run_failed_at_post", "run_failed_at_fb"}}
 }
 
 func init() {
-	props["C06"] = &propCfg{Parts: []part{{Engine: "flowsim", Quick: 40000, Thorough: 1000000}},
+	props["C06"] = &propCfg{Parts: []part{{Engine: "flowsim", Quick: 40000, Thorough: 1500000}},
 		Rule: flowRule + "non-trivial = at least three callback invocations and at least one fault fired (failing item, error result, slow or gated callback); batch sizes 0..64, concurrency 0..16, all prep shapes",
 		Must: []string{"completion_order_reversed", "items_in_flight_together", "all_c_workers_busy"}}
-	props["C07"] = &propCfg{Parts: []part{{Engine: "flowsim", Quick: 40000, Thorough: 1000000}},
+	props["C07"] = &propCfg{Parts: []part{{Engine: "flowsim", Quick: 40000, Thorough: 1500000}},
 		Rule: flowRule + "non-trivial = at least three callback invocations and at least one fault fired; batches up to 32 items, budgets 1..4, concurrency 0..8, independent per-item failure scripts",
 		Must: []string{"completion_order_reversed", "fallback_after_retries"}}
-	props["C08"] = &propCfg{Parts: []part{{Engine: "flowsim", Quick: 30000, Thorough: 600000}, {Engine: "poolsim", Quick: 12000, Thorough: 300000}},
+	props["C08"] = &propCfg{Parts: []part{{Engine: "flowsim", Quick: 30000, Thorough: 1000000}, {Engine: "poolsim", Quick: 12000, Thorough: 400000}},
 		Rule: flowRule + "(flowsim: batches with concurrency 0..16 and up to 4c+8 items, half of them with a barrier of min(c,n) mutually dependent executions; poolsim: pools of size -1..16) non-trivial = at least two executions in flight together",
 		Must: []string{"all_c_workers_busy", "all_workers_busy"}}
-	props["C09"] = &propCfg{Parts: []part{{Engine: "flowsim", Quick: 40000, Thorough: 1000000}},
+	props["C09"] = &propCfg{Parts: []part{{Engine: "flowsim", Quick: 40000, Thorough: 3000000}},
 		Rule: flowRule + "non-trivial = at least three callback invocations and a failing item; batches up to 16 items, concurrency 0..4, stop and continue modes, random schedules and 'failure handled first' schedules (in-flight items parked, failing worker boosted)",
 		Must: []string{"items_in_flight_together", "failure_handled_first_schedule", "item_started_on_other_worker_after_failure"}}
 }
 
 func init() {
-	props["C05"] = &propCfg{Parts: []part{{Engine: "flowsim", Quick: 60000, Thorough: 1500000}},
+	props["C05"] = &propCfg{Parts: []part{{Engine: "flowsim", Quick: 60000, Thorough: 6000000}},
 		Rule: flowRule + "cancellation injected before the run (cancel / expired deadline), synchronously inside one callback invocation on the executed path, or by a deadline strictly inside a callback's simulated sleep or a retry wait; non-trivial = at least three callback invocations and at least one fault fired",
 		Must: []string{"run_cut_short", "cancel_landed_in_wait"}}
 }
 
 func init() {
-	props["C18"] = &propCfg{Parts: []part{{Engine: "flowsim", Quick: 40000, Thorough: 800000}},
+	props["C18"] = &propCfg{Parts: []part{{Engine: "flowsim", Quick: 40000, Thorough: 5000000}},
 		Rule: flowRule + "every node kind (struct, plain, function nodes with and without a post function, flows used as nodes, batch nodes with 0..3 items and concurrency 0..2) x post action {empty, default, custom}, run directly and as a routed step whose default connection leads to a witness node; non-trivial = at least two node visits"}
 }
 
 func init() {
-	props["C17"] = &propCfg{Parts: []part{{Engine: "flowsim", Quick: 40000, Thorough: 1000000}},
+	props["C17"] = &propCfg{Parts: []part{{Engine: "flowsim", Quick: 40000, Thorough: 5000000}},
 		Rule: flowRule + "function-style nodes in all 8 Result/Any style mixes, option and builder construction, payloads nil/int/float/string/map/slice/pointer/struct and error results, as single runs, inside flows and as batch exec functions, under retries and fallback; identity of pointers, maps and slices is checked; non-trivial = at least three callback invocations",
 		Must: []string{"fallback_after_retries"}}
 }
 
 func init() {
-	props["C19"] = &propCfg{Parts: []part{{Engine: "flowsim", Quick: 30000, Thorough: 800000}, {Engine: "poolsim", Quick: 4000, Thorough: 100000}},
+	props["C19"] = &propCfg{Parts: []part{{Engine: "flowsim", Quick: 30000, Thorough: 2000000}, {Engine: "poolsim", Quick: 4000, Thorough: 150000}},
 		Rule: flowRule + "a function, struct or batch node configured by a sequence of up to 6 settings (max retries, wait, batch concurrency, error handling; option or builder form; functions attached by option or by builder) and probed by a run with failing attempts, waits and concurrent items; the same seed and schedule are then replayed on the canonically configured twin (constructor options only, last values) and what the callbacks saw must be identical; the poolsim part runs pools of size -3..0 (documented default: one worker); non-trivial = at least three callback invocations"}
 }
 
 func init() {
-	props["C20"] = &propCfg{Parts: []part{{Engine: "flowsim", Quick: 30000, Thorough: 800000}},
+	props["C20"] = &propCfg{Parts: []part{{Engine: "flowsim", Quick: 30000, Thorough: 5000000}},
 		Rule: flowRule + "budgets 2..5, waits 10..50 ms and 1 h on the fake clock, all failure sequences, single nodes and batch items (sequential and concurrent); one third of the runs cancel at an off-grid instant strictly inside a 1 h retry wait; timestamps are exact simulated times; non-trivial = at least three callback invocations",
 		Must: []string{"cancel_landed_in_wait", "retry_attempt"}}
 }
 
 func init() {
-	props["C10"] = &propCfg{Parts: []part{{Engine: "flowsim", Quick: 40000, Thorough: 1000000}},
+	props["C10"] = &propCfg{Parts: []part{{Engine: "flowsim", Quick: 40000, Thorough: 2000000}},
 		Rule: flowRule + "hierarchical flows of depth 2..4 (inner flows ending by an unconnected action, a nil connection or an error; inner flows targeted from several places); refinement against the flattened interpretation of the model, store identity at every callback, store contents, and - where the hierarchy flattens without cloning - the real flattened flyt.Flow replayed under the same schedule with identical event log; non-trivial = at least two node visits",
 		Must: []string{"flattened_twin_compared", "node_revisited"}}
-	props["C11"] = &propCfg{Parts: []part{{Engine: "flowsim", Quick: 40000, Thorough: 1000000}},
+	props["C11"] = &propCfg{Parts: []part{{Engine: "flowsim", Quick: 40000, Thorough: 3000000}},
 		Rule: flowRule + "batches of up to 16 items, concurrency 0..4, both error modes, waits 0 / 10 ms / 1 h, cancelled before the run, synchronously inside the exec of a chosen item/attempt, or by a canceller task whose instant the scheduler decides; non-trivial = at least three callback invocations and at least one fault fired",
 		Must: []string{"items_in_flight_together"}}
 }
